@@ -12,33 +12,49 @@ import GdVerif.Spec.ValveFaults
   `Spec.faultyExpected` and the sends `Spec.faultySends`, with `THM 1` when the hypotheses of
   `C10_valve_query_faulty` hold.  The check compares its own script with this line, so the cases it runs against the
   Rust are inside the theorem's domain, on exactly the theorem's scripts.
+
+  Units 0-2: the fault hits the initial request of info / players / rules; 3-5: the last exchange of an attempt, after
+  every challenge round was answered; 6-8 (units whose reply travels as two or more fragments): after the challenge rounds
+  the reply STOPS HALF WAY — a silent attempt still receives some of the fragments before the silence (`valveGot`: by
+  position in the vector all but the last / only the first / all but the first in reverse order), a malformed datagram
+  arrives after such a selection, a send fault hits the last request of the attempt.
 -/
 namespace Gd.Run
 open Gd Gd.Valve Gd.Valve.Spec
 
+/-- what the attempt at position `i` of the vector still receives of the reply `pool` before the silence / the malformed
+datagram, for the units 6-8 (nothing for the others) -/
+def valveGot (unit i : Nat) (pool : List Bytes) : List Bytes :=
+  if unit < 6 then []
+  else if i % 3 == 0 then pool.take (pool.length - 1)
+  else if i % 3 == 1 then pool.take 1
+  else (pool.drop 1).reverse
+
 /-- read a vector as (failed attempts, ending, left-over letters) for retry count `r`, faults after `j` challenge
 rounds -/
-def planOfVector (r j : Nat) : List Char → List Attempt → UnitPlan × List Char
+def planOfVector (r j unit : Nat) (pool : List Bytes) : List Char → List Attempt → UnitPlan × List Char
   | [], fails => (⟨fails, .gaveUp⟩, [])
   | c :: rest, fails =>
     if fails.length == r + 1 then (⟨fails, .gaveUp⟩, c :: rest)
-    else if c == 'S' then planOfVector r j rest (fails ++ [⟨j, false⟩])
-    else if c == 'F' then planOfVector r j rest (fails ++ [⟨j, true⟩])
-    else if c == 'M' then (⟨fails, .malformed j malformedDatagram⟩, rest)
+    else if c == 'S' then planOfVector r j unit pool rest (fails ++ [⟨j, false, valveGot unit fails.length pool⟩])
+    else if c == 'F' then planOfVector r j unit pool rest (fails ++ [⟨j, true, []⟩])
+    else if c == 'M' then (⟨fails, .malformed j (valveGot unit fails.length pool) malformedDatagram⟩, rest)
     else (⟨fails, .valid⟩, rest)
 
-/-- deliveries / flags of the letters the client never gets to -/
-def leftover (x : Exchange) (arrival : List Bytes) (j : Nat) (cs : List Char) : List Delivery × List Bool :=
-  cs.foldl (fun (acc : List Delivery × List Bool) c =>
+/-- deliveries / flags of the letters the client never gets to (positions `i`, `i + 1`, … of the vector) -/
+def leftover (x : Exchange) (arrival : List Bytes) (j unit : Nat) : Nat → List Char → List Delivery × List Bool
+  | _, [] => ([], [])
+  | i, c :: rest =>
     let (d, f) :=
-      if c == 'S' then ((Attempt.mk j false).deliveries x, (Attempt.mk j false).faults x)
-      else if c == 'F' then ((Attempt.mk j true).deliveries x, (Attempt.mk j true).faults x)
-      else if c == 'M' then ((Ending.malformed j malformedDatagram).deliveries x arrival,
-        (Ending.malformed j malformedDatagram).faults x)
+      if c == 'S' then ((Attempt.mk j false (valveGot unit i arrival)).deliveries x, (Attempt.mk j false []).faults x)
+      else if c == 'F' then ((Attempt.mk j true []).deliveries x, (Attempt.mk j true []).faults x)
+      else if c == 'M' then ((Ending.malformed j (valveGot unit i arrival) malformedDatagram).deliveries x arrival,
+        (Ending.malformed j [] malformedDatagram).faults x)
       else (Ending.valid.deliveries x arrival, Ending.valid.faults x)
-    (acc.1 ++ d, acc.2 ++ f)) ([], [])
+    let (d', f') := leftover x arrival j unit (i + 1) rest
+    (d ++ d', f ++ f')
 
-/-- `valveplan <seed> <k> <retries> <unit 0-5> <vector>` → the case line of the plan, with tags -/
+/-- `valveplan <seed> <k> <retries> <unit 0-8> <vector>` → the case line of the plan, with tags -/
 def entryValvePlan (args : List String) : String :=
   match args with
   | [seed, k, r, unit, vec] =>
@@ -53,7 +69,7 @@ def entryValvePlan (args : List String) : String :=
       let j := if unit ≥ 3 then x.challenges.length else 0
       let arrival := match u with
         | .info => infoDatagrams cfg st | .players => playersDatagrams cfg st | .rules => rulesDatagrams cfg st
-      let (p, left) := planOfVector r j vec.toList []
+      let (p, left) := planOfVector r j unit arrival vec.toList []
       let ok : UnitPlan := ⟨[], .valid⟩
       let none' : UnitPlan := ⟨[], .gaveUp⟩
       -- units before `u` are answered at once; units after it only run when `u` is answered
@@ -62,7 +78,7 @@ def entryValvePlan (args : List String) : String :=
         | .info => ⟨p, after, after⟩
         | .players => ⟨ok, p, after⟩
         | .rules => ⟨ok, ok, p⟩
-      let (lq, lf) := leftover x arrival j left
+      let (lq, lf) := leftover x arrival j unit (vec.length - left.length) left
       -- what the script still holds behind a unit that ends the query: the later units' exchanges
       let laterQ : List Delivery := if p.ending == .valid then [] else
         (later u).flatMap fun v => Ending.valid.deliveries (exchangeOf cfg v)
